@@ -155,6 +155,8 @@ def params_of(c) -> dict:
         p["drm"] = c["drm"]
     if c.get("version"):
         p["playready__version"] = c["version"]
+    if c.get("start") is not None:
+        p["start"] = c["start"]
     return p
 
 
@@ -171,7 +173,13 @@ def fetch(env, c):
     if c["route"] == "mps":
         pk = [pk for pk, d in env.mps_periods if d == m["stream"]][0]
         mps = (c11_env.MPS_NAME, pk)
-    r = env.app.client().get(lib.init_url(m, c["mode"], params_of(c), mps=mps))
+    url = lib.init_url(m, c["mode"], params_of(c), mps=mps)
+    if c.get("now"):
+        import appboot
+        with appboot.Clock(c["now"]):
+            r = env.app.client().get(url)
+    else:
+        r = env.app.client().get(url)
     return m, r
 
 
@@ -219,6 +227,14 @@ def oracle_init(env, c, m=None, resp=None) -> list[dict]:
     if resp.status_code >= 500:
         return [{"what": f"init request answered {resp.status_code}", "case": c}]
     if resp.status_code != 200:
+        if c.get("now") or c.get("start") is not None:
+            # an init segment does not depend on the clock or on the start of the live timeline: the
+            # same request without them decides whether an init segment is due
+            base = {k: v for k, v in c.items() if k not in ("now", "start")}
+            _, rb = fetch(env, base)
+            if rb.status_code == 200:
+                return [{"what": f"init request answered {resp.status_code} at clock {c.get('now')} with start={c.get('start')!r}; "
+                                 f"without clock / start the same request is served (200, {len(rb.data)} bytes)", "case": c}]
         return []          # refused before an init segment was produced (see ASSUMPTIONS)
     S = stored_init(m)
     R = resp.data
@@ -378,6 +394,29 @@ def mixed_cases(env, rng, n_random: int):
     return out
 
 
+def clock_cases(env):
+    """init requests are clock-independent: the same request before / at / after the start of the live
+    timeline in effect (explicit start 0.5 s, 1 s, 1 day ahead, equal, behind; start=epoch with 1969
+    clocks; symbolic starts just after their roll-over; start=now = stream age 0), live and vod,
+    single- and multi-period route"""
+    grid = [
+        ("2024-05-01T12:00:00Z", "2024-05-01T12:00:00.500000Z"), ("2024-05-01T12:00:00Z", "2024-05-01T12:00:01Z"),
+        ("2024-05-01T12:00:00Z", "2024-05-02T12:00:00Z"), ("2024-05-01T12:00:00Z", "2024-05-01T12:00:00Z"),
+        ("2024-05-01T12:00:00Z", "2024-05-01T11:59:59Z"), ("2024-05-01T12:00:00.250000Z", "2024-05-01T12:00:00.750000Z"),
+        ("1969-12-31T23:59:59Z", "epoch"), ("1969-06-01T00:00:00Z", "epoch"), ("1970-01-01T00:00:00Z", "epoch"),
+        ("2024-05-01T00:00:00.000001Z", "today"), ("2024-05-01T00:00:00Z", "month"), ("2024-01-01T00:00:00.500000Z", "year"),
+        ("2024-05-01T12:00:00Z", "now"), ("2038-01-19T03:14:08Z", "2038-01-19T03:14:09Z"),
+        ("2024-05-01T12:00:00Z", None), ("1969-12-31T23:59:59Z", None),
+    ]
+    tracks = [("bbb", "bbb_v6_enc", "all"), ("bbb", "bbb_a1", None), ("mk", "mk_v6_enc", "playready-moov"),
+              ("lay", "lay_trexmehd_enc", "clearkey")]
+    for now, start in grid:
+        for stream, name, drm in tracks:
+            for route, mode in (("dash", "live"), ("mps", "live"), ("dash", "vod")):
+                yield {"kind": "init", "route": route, "stream": stream, "name": name, "mode": mode, "drm": drm,
+                       "version": None, "now": now, "start": start}
+
+
 REGRESSION = [
     {"kind": "init", "route": "dash", "stream": "bbb", "name": "bbb_v6", "mode": "live", "drm": None, "version": None},
     {"kind": "init", "route": "dash", "stream": "bbb", "name": "bbb_v6_enc", "mode": "live", "drm": "all", "version": None},
@@ -429,19 +468,21 @@ def evaluate(env, cases, ch: Channel):
         form = drm_form(c.get("drm"))
         ch.count(f"{c['route']} {c['mode']} {'enc' if m['encrypted'] else 'clear'} systems={nsys} -> {r.status_code}")
         ch.count(f"drm form: {form}")
+        if c.get("now"):
+            ch.count(f"clock grid: start={'explicit' if (c.get('start') or '')[:1].isdigit() else c.get('start')} -> {r.status_code}")
         if has_largesize(stored_init(m)):
             ch.count(f"stored init segment with a 64-bit largesize box -> {r.status_code} (outside the model, oracle only)")
         elif mo == "err":
             ch.count(f"selection outside the modelled parser domain -> {r.status_code} (oracle only)")
         elif r.status_code == 200:
             if m["encrypted"] and req and any("moov" in v for k, v in req.items() if k != "marlin"):
-                ch.nontrivial.add((c["route"], c["mode"], c["name"], c.get("drm"), c.get("version")))
+                ch.nontrivial.add((c["route"], c["mode"], c["name"], c.get("drm"), c.get("version"), c.get("now"), c.get("start")))
             elif c["mode"] == "live":
-                ch.nontrivial.add((c["route"], c["mode"], c["name"], c.get("drm"), c.get("version")))
+                ch.nontrivial.add((c["route"], c["mode"], c["name"], c.get("drm"), c.get("version"), c.get("now"), c.get("start")))
             if mo not in ("driver-error",) and mo != r.data.hex():
                 ch.disagreements.append({"case": c, "model": mo[:160], "impl": r.data.hex()[:160],
                                          "model_len": len(mo) // 2, "impl_len": len(r.data)})
-        elif r.status_code == 404 and m["encrypted"] and c["route"] == "dash" and req == {}:
+        elif r.status_code == 404 and m["encrypted"] and c["route"] == "dash" and req == {} and not c.get("now"):
             ch.count("encrypted track without DRM refused with 404 (not judged)")
         else:
             ch.disagreements.append({"case": c, "model": "an init segment", "impl": f"status {r.status_code}"})
@@ -475,6 +516,11 @@ def history_probes(env) -> list[dict]:
                 out.append({"kind": "init", "route": route, "stream": stream, "name": name, "mode": mode,
                             "drm": drm, "version": None})
     out.append({"kind": "init", "route": "dash", "stream": "bbb", "name": "bbb_v6", "mode": "live", "drm": "all", "version": None})
+    # before the start of the live timeline in effect
+    out.append({"kind": "init", "route": "dash", "stream": "bbb", "name": "bbb_v6_enc", "mode": "live", "drm": "all",
+                "version": None, "now": "2024-05-01T12:00:00Z", "start": "2024-05-01T12:00:01Z"})
+    out.append({"kind": "init", "route": "mps", "stream": "bbb", "name": "bbb_a1_enc", "mode": "live", "drm": "clearkey",
+                "version": None, "now": "1969-12-31T23:59:59Z", "start": "epoch"})
     return out
 
 
@@ -839,7 +885,8 @@ def channels(ctx):
                                       "mode": mode, "drm": drm, "version": None})
         for c in cases[::6]:
             c["version"] = rng.choice(versions + ("3", "2.00", "none"))
-    cases = [dict(c) for c in REGRESSION] + list(layout_cases(env)) + cases + mixed_cases(env, rng, ctx.scale(120, 3000))
+    cases = [dict(c) for c in REGRESSION] + list(layout_cases(env)) + list(clock_cases(env)) + cases \
+        + mixed_cases(env, rng, ctx.scale(120, 3000))
     evaluate(env, cases, ch)
     yield ch
     yield ch_via_manifest(ctx, env)
@@ -987,7 +1034,7 @@ def search(ctx, disagreements):
         if f:
             return f[0]
     rng = ctx.rng("search")
-    pool = itertools.chain(seeds, REGRESSION, layout_cases(env), mixed_cases(env, rng, 500), all_cases(env, (None, "1.0", "4.0")))
+    pool = itertools.chain(seeds, REGRESSION, clock_cases(env), layout_cases(env), mixed_cases(env, rng, 500), all_cases(env, (None, "1.0", "4.0")))
     if not ctx.thorough:
         pool = itertools.islice(pool, 5000)        # keep the quick tier bounded when a proof obligation breaks
     for c in pool:
